@@ -16,10 +16,11 @@ import (
 )
 
 type adminOp struct {
-	Op  string `json:"op"` // addRoute delRoute addBlack delBlack addRw delRw addAgg delAgg addDest delDest
-	Id  string `json:"id,omitempty"`
-	Key string `json:"key,omitempty"`
-	Idx int    `json:"idx,omitempty"`
+	Op   string            `json:"op"` // addRoute delRoute addBlack delBlack addRw delRw addAgg delAgg addDest delDest
+	Id   string            `json:"id,omitempty"`
+	Key  string            `json:"key,omitempty"`
+	Idx  int               `json:"idx,omitempty"`
+	Opts map[string]string `json:"opts,omitempty"` // modRoute / modDest
 }
 
 type c18Case struct {
@@ -33,6 +34,8 @@ type tableView struct {
 	Aggs   []string            `json:"aggs"`
 	Routes []string            `json:"routes"`
 	Dests  map[string][]string `json:"dests"`
+	// the six filter options of every route ("r:key") and destination ("d:key:id"), in the order the entities were created
+	Filters [][]string `json:"filters"`
 }
 
 type heldSlice struct {
@@ -114,12 +117,31 @@ func runC18(raw json.RawMessage) (interface{}, error) {
 			}
 		}
 	}
+	var created []string // entity names in creation order
+	six := func(m matcher.Matcher) []string {
+		return []string{m.Prefix, m.NotPrefix, m.Sub, m.NotSub, m.Regex, m.NotRegex}
+	}
 	view := func() tableView {
 		rw, ag, bl, rt := tab.VerifConfigSlices()
 		v := tableView{Black: readBl(bl), Rw: readRw(rw), Aggs: readAgg(ag), Routes: readRt(rt), Dests: map[string][]string{}}
+		cur := map[string][]string{}
 		for _, r := range rt {
+			k := strings.TrimPrefix(r.Key(), prefix)
+			cur["r:"+k] = six(r.Snapshot().Matcher)
 			if vd, ok := r.(verifDester); ok {
-				v.Dests[strings.TrimPrefix(r.Key(), prefix)] = readDs(vd.VerifDests())
+				ds := vd.VerifDests()
+				v.Dests[k] = readDs(ds)
+				dmu.Lock()
+				for _, d := range ds {
+					cur["d:"+k+":"+destId[d]] = six(d.GetMatcher())
+				}
+				dmu.Unlock()
+			}
+		}
+		for _, n := range created {
+			if f, ok := cur[n]; ok {
+				v.Filters = append(v.Filters, append([]string{n}, f...))
+				delete(cur, n) // a name is listed once (ids are unique)
 			}
 		}
 		return v
@@ -141,6 +163,7 @@ func runC18(raw json.RawMessage) (interface{}, error) {
 			r, err = route.NewSendAllMatch(prefix+op.Id, m, nil)
 			if err == nil {
 				tab.AddRoute(r)
+				created = append(created, "r:"+op.Id)
 			}
 		case "delRoute":
 			err = tab.DelRoute(prefix + op.Key)
@@ -182,9 +205,14 @@ func runC18(raw json.RawMessage) (interface{}, error) {
 				destId[d] = op.Id
 				dmu.Unlock()
 				r.(interface{ Add(*dest.Destination) }).Add(d)
+				created = append(created, "d:"+op.Key+":"+op.Id)
 			}
 		case "delDest":
 			err = tab.DelDestination(prefix+op.Key, op.Idx)
+		case "modRoute":
+			err = tab.UpdateRoute(prefix+op.Key, op.Opts)
+		case "modDest":
+			err = tab.UpdateDestination(prefix+op.Key, op.Idx, op.Opts)
 		}
 		o := opObs{Res: "ok", View: view()}
 		if err != nil {
